@@ -3,6 +3,7 @@ package c31
 import (
 	"encoding/json"
 	"os"
+	"strconv"
 	"testing"
 )
 
@@ -16,15 +17,27 @@ func TestDebugLoop(t *testing.T) {
 	if err := json.Unmarshal(b, &rf); err != nil {
 		t.Fatal(err)
 	}
+	N, _ := strconv.Atoi(os.Getenv("C31_DEBUG_N"))
+	if N == 0 {
+		N = 100
+	}
 	n := 0
-	for i := 0; i < 300; i++ {
+	sigs := map[string]int{}
+	for i := 0; i < N; i++ {
 		o := runOnce(rf.Case)
 		if o.violation != "" || o.liveness != "" {
 			n++
-			if o.violation != "" {
-				t.Logf("iter %d: %s | %s", i, o.violation, o.liveness)
-			}
+			sigs[firstLine(o.violation)+"|"+o.liveness]++
 		}
 	}
-	t.Logf("failures: %d/400", n)
+	t.Logf("failures: %d/%d %v", n, N, sigs)
+}
+
+func firstLine(s string) string {
+	for i := range s {
+		if s[i] == '\n' {
+			return s[:i]
+		}
+	}
+	return s
 }
